@@ -192,7 +192,13 @@ def run(ctx):
         if ctx.search_mode:
             nfiles *= 2
         for k in range(nfiles):
-            spec = vcfgen.rich_file(rng, nrec=rng.choice([3, 9, 9, 30, 80]), ploidies=(2,))
+            # every other file: several samples and integer FORMAT vectors whose length differs between the samples of a
+            # record (htslib pads the short ones with its end-of-vector marker, which must never reach a summary)
+            ragged = k % 2 == 0
+            spec = vcfgen.rich_file(rng, nrec=rng.choice([3, 9, 9, 30, 80]), ploidies=(2,),
+                                    nsamples=rng.choice([2, 3, 6]) if ragged else None,
+                                    must_formats=[("Integer", "."), ("Integer", rng.choice(["2", "R", "G"]))] if ragged else ())
+            ctx.count("files_with_ragged_integer_format" if ragged else "files_free")
             if not spec["records"]:
                 continue
             path = vcfgen.materialise(spec, pathlib.Path(work) / f"f{k}", rng.choice(["vcf.gz+tbi", "vcf.gz+csi"]),
